@@ -271,13 +271,18 @@ class InSituDist:
         orig = SUB.subseq_segment_dist
         mon = self
 
-        def wrapper(child, parent, edges):
-            res = orig(child, parent, edges)
-            if child != 0:
-                mon.n += 1
-                want = model_dist(child, parent, edges)
-                if res != want:
-                    ctx.viol("C18.insitu", dict(case, child=child, parent=parent, edges=edges), f"in-situ subseq_segment_dist({child:#b}, {parent:#b}, {edges}) = {res}, definition gives {want}")
+        def wrapper(*a, **k):
+            res = orig(*a, **k)
+            try:
+                child, parent = a[0], a[1]
+                edges = a[2] if len(a) > 2 else k.get("edges", True)
+                if len(a) + len(k) == 3 and isinstance(child, int) and isinstance(parent, int) and child != 0:
+                    mon.n += 1
+                    want = model_dist(child, parent, edges)
+                    if res != want:
+                        ctx.viol("C18.insitu", dict(case, child=child, parent=parent, edges=edges), f"in-situ subseq_segment_dist({child:#b}, {parent:#b}, {edges}) = {res}, definition gives {want}")
+            except (IndexError, TypeError, KeyError):
+                pass  # called in a way the contract does not know: not observed
             return res
 
         for m in self.mods:
